@@ -76,17 +76,27 @@ fn history(seed: u64, n: usize) -> Vec<HOp> {
         HOp::Set(12, Fr::from(0u64)),
         HOp::Delete(12),
         HOp::Append(v1),
+        // refused operations (positions beyond the capacity) must leave every backend where it was
+        HOp::Set(1 << 20, v1),
+        HOp::Append(v2),
+        HOp::Delete(1 << 20),
+        HOp::Set(usize::MAX, v2),
+        HOp::Append(v1),
+        HOp::Delete((1 << 20) + 5),
     ]);
-    mark = 14;
+    mark = 16;
     for k in ops.len()..n.max(ops.len()) {
         let op = match rng.gen_range(0..10) {
             0..=3 => {
                 let i = match k % 4 {
+                    0 if k % 12 == 0 => (1usize << 20) + rng.gen_range(0..3), // refused
                     0 => rng.gen_range(0..(1usize << 20)),
                     1 => (mark + rng.gen_range(0..3)).min((1 << 20) - 1), // at / just above the leaf count
                     _ => pos[rng.gen_range(0..pos.len())],
                 };
-                mark = mark.max(i + 1);
+                if i < (1 << 20) {
+                    mark = mark.max(i + 1);
+                }
                 HOp::Set(i, val(&mut rng))
             }
             4..=6 if mark < (1 << 20) => {
@@ -123,17 +133,15 @@ fn model_transcript(seed: u64, n: usize) -> Vec<String> {
     let mut lines = vec![];
     let pos = sample_positions(seed);
     for (k, op) in history(seed, n).iter().enumerate() {
-        match op {
-            HOp::Set(i, v) => {
-                m.set(*i, *v);
-            }
-            HOp::Append(v) => {
-                m.append(*v);
-            }
-            HOp::Delete(i) => {
-                m.delete(*i);
-            }
-        }
+        let out = match op {
+            HOp::Set(i, v) => m.set(*i, *v),
+            HOp::Append(v) => m.append(*v),
+            HOp::Delete(i) => m.delete(*i),
+        };
+        // whether a refused operation is reported as an error is not part of the statement (the backends differ:
+        // deleting beyond the capacity is an error for the sled backend and a silent no-op for the in-memory ones);
+        // roots and paths after it are
+        let _ = out;
         lines.push(format!("{k} root {}", hex(&enc_fr(&m.root()))));
         if k % 8 == 7 || k + 1 == n {
             for &p in &pos {
@@ -165,7 +173,10 @@ fn sut_transcript(rep: &mut Rep, seed: u64, n: usize) -> Option<Vec<String>> {
             HOp::Delete(i) => catch(|| r.delete_leaf(*i).map_err(|e| e.to_string())),
         };
         if !matches!(res, Ok(Ok(()))) {
-            lines.push(format!("{k} op-failed {:?}", op));
+            rep.count("history_operations_reported_as_failed");
+            if res.is_err() {
+                lines.push(format!("{k} op-panicked {:?}", op));
+            }
         }
         let mut o = vec![];
         let _ = r.get_root(&mut o);
